@@ -5,7 +5,7 @@ import math
 
 from . import lib
 
-ORD_VARS = ["x", "y", "z", "w", "alpha", "b2", "theta_long_name", "k"]
+ORD_VARS = ["x", "y", "z", "w", "alpha", "b2", "theta_long_name", "k", "X", "Alpha"]
 TRIP_VARS = ["t1", "t2", "t3"]
 MISS_VARS = ["m1", "m2"]
 
@@ -45,6 +45,8 @@ class Profile:
         self.trip_prob = rng.choice(b.get("trip_prob", [0.0, 0.1, 0.2, 0.35]))
         self.group_prob = rng.choice(b.get("group_prob", [0.0, 0.0, 0.1, 0.25]))
         self.dup_prob = rng.choice(b.get("dup_prob", [0.0, 0.1, 0.3]))
+        self.clone_prob = rng.choice(b.get("clone_prob", [0.0, 0.05, 0.15]))
+        self.twin_prob = rng.choice(b.get("twin_prob", [0.0, 0.2, 0.5]))
         self.arm_prob = rng.choice(b.get("arm_prob", [0.1, 0.25, 0.25, 0.5]))
         self.miss_prob = rng.choice(b.get("miss_prob", [0.2, 0.4, 0.6]))
         self.n_points = rng.randint(*b.get("n_points", (2, 5)))
@@ -103,9 +105,22 @@ def gen_world(rng, pr):
     for _ in range(rng.randint(1, 3)):
         add({"op": "Constant", "value": _const(rng, pr)})
 
+    def clone(i, memo):
+        """Equal-but-distinct copy of the sub-DAG rooted at node i (new table entries)."""
+        if i in memo:
+            return memo[i]
+        node = dict(nodes[i])
+        kids = [clone(k, memo) for k in node.pop("kids", [])]
+        memo[i] = add(node, kids)
+        return memo[i]
+
     def pick_kid():
         r = rng.random()
         n = len(nodes)
+        if rng.random() < pr.clone_prob:
+            cands = [i for i in range(n) if 2 <= info[i][1] <= 12 and info[i][0] >= 2]
+            if cands:
+                return clone(rng.choice(cands), {})
         if r < pr.share:
             return rng.randrange(n)                       # anything: creates sharing
         if r < pr.share + 0.25:
@@ -183,7 +198,27 @@ def gen_world(rng, pr):
         size = 1 + sum(info[k][1] for k in kids)
         if depth > pr.max_depth or size > pr.max_size:
             continue
-        add(node, kids)
+        made = add(node, kids)
+        if node["op"] in lib.PARAM_N and rng.random() < pr.twin_prob:
+            # the twin: same inner, same n, the other class (NthRoot prints itself as NthPower, so
+            # anything keyed by printed form confuses the two)
+            other = "NthRoot" if node["op"] == "NthPower" else "NthPower"
+            twin = add({"op": other, "n": node["n"]}, kids)
+            if rng.random() < 0.6:
+                # and a pair of equally shaped parents over the two twins
+                wrap = rng.choice(["Multiply", "Add", "Sine", "Exponential"])
+                if wrap in lib.NARY:
+                    c = add({"op": "Constant", "value": _const(rng, pr)})
+                    extra = pick_kid()
+                    if info[extra][0] + 1 <= pr.max_depth and info[extra][1] + size + 2 <= pr.max_size:
+                        add({"op": wrap}, [c, made, extra])
+                        add({"op": wrap}, [c, twin, extra])
+                elif wrap == "Sine":
+                    add({"op": "Sine"}, [made])
+                    add({"op": "Sine"}, [twin])
+                else:
+                    add({"op": "Exponential", "base": 2}, [made])
+                    add({"op": "Exponential", "base": 2}, [twin])
     return nodes, info, ord_vars, trip_vars, miss_vars
 
 
